@@ -12,6 +12,10 @@
 //          lock   (C02/C08)  the tfree program, but the output is the schedule-lockstep log for the Coq model
 //                            coq/Model/TFree.v (format: header of ocaml/mode_tfree.ml, replayed by `replay tfree-lockstep`):
 //                            A/R call brackets, B live blocks, H heaps, G page snapshots at call return, S atomic steps
+//          lockheap (C10)    the heap program (mi_heap_new / mi_heap_delete / mi_heap_collect of per-thread extra heaps while
+//                            other threads free into their pages) with the lockstep log; at the end everything is freed,
+//                            the extra heaps are deleted and the owners collect
+//          prodcons (C08)    producer/consumer with a bounded number of live blocks, oracle `unbounded` (prodcons.h)
 // Output: "V <kind> ..." oracle violations, "S ..." atomic step log (with `log`), "END steps=.. viol=.."
 #include REPO_STATIC
 #include <stdio.h>
@@ -39,7 +43,7 @@ static int cur = 0, nthreads = 3, sched_on = 0, do_log = 0;
 static long max_steps = 4000000, nviol = 0, spurious = 0, switches = 0;
 static prng_t G;       // scheduler choices
 static prng_t GP;      // program choices
-static int mode = 0;   // 0 tfree, 1 exit, 2 heap
+static int mode = 0;   // 0 tfree, 1 exit, 2 heap, 3 prodcons
 static int many_segments = 0;   // VERIF_TARGET_SEGMENTS: threads own more segments than the target, so segments are force-abandoned
 static int big_arena = 0;   // VERIF_BIG_ARENA: a 4 GiB arena (128 blocks, two bitmap fields) and huge farewell blocks
 static int lockfmt = 0; // mode `lock`: tfree program, log in the lockstep format of ocaml/mode_tfree.ml
@@ -64,9 +68,13 @@ static inline uint8_t pat(uint64_t seed, size_t i) { uint64_t x = seed + i * 0x9
 // ---- known pages / heaps for step classification ----
 #define MAXPG 512
 static mi_page_t* pages[MAXPG]; static int npages = 0;
-static mi_heap_t* kheaps[64]; static int nkheaps = 0;
+#define MAXHP 2048
+static mi_heap_t* kheaps[MAXHP]; static int nkheaps = 0;   // heap ids are never reused: a deleted heap keeps its id and its address
+static int kdead[MAXHP];                                    // (an access to it is still classified and logged), see heap_id_new
 static int page_id(mi_page_t* pg) { for (int i = 0; i < npages; i++) if (pages[i] == pg) return i; if (npages < MAXPG) { pages[npages] = pg; return npages++; } return -1; }
-static int heap_id(mi_heap_t* h) { for (int i = 0; i < nkheaps; i++) if (kheaps[i] == h) return i; if (nkheaps < 64) { kheaps[nkheaps] = h; return nkheaps++; } return -1; }
+static int heap_id(mi_heap_t* h) { for (int i = nkheaps - 1; i >= 0; i--) if (kheaps[i] == h) return i; if (nkheaps < MAXHP) { kheaps[nkheaps] = h; return nkheaps++; } return -1; }
+// mi_heap_new returned h: the memory of a deleted heap structure may have been re-used, the new heap gets a new id
+static int heap_id_new(mi_heap_t* h) { for (int i = 0; i < nkheaps; i++) if (kheaps[i] == h) kheaps[i] = NULL; if (nkheaps < MAXHP) { kheaps[nkheaps] = h; return nkheaps++; } return -1; }
 
 static void classify(volatile void* p, char* buf, size_t n) {
   for (int i = 0; i < npages; i++) {
@@ -74,7 +82,7 @@ static void classify(volatile void* p, char* buf, size_t n) {
     if (p == (void*)&pages[i]->xthread_free) { snprintf(buf, n, "tf:%d", i); return; }
     if (p == (void*)&pages[i]->xheap) { snprintf(buf, n, "xh:%d", i); return; }
   }
-  for (int i = 0; i < nkheaps; i++) if (p == (void*)&kheaps[i]->thread_delayed_free) { snprintf(buf, n, "df:%d", i); return; }
+  for (int i = nkheaps - 1; i >= 0; i--) if (kheaps[i] != NULL && p == (void*)&kheaps[i]->thread_delayed_free) { snprintf(buf, n, "df:%d", i); return; }
   snprintf(buf, n, "other");
 }
 // abstract value of a thread-free word: flag + list of (page-relative) block indices
@@ -96,7 +104,7 @@ static int stay_pct = 55, burst_left = 0;
 static int is_shared_word(volatile void* p) {
   if (p == NULL) return 0;
   for (int i = 0; i < npages; i++) if (pages[i] != NULL && (p == (void*)&pages[i]->xthread_free || p == (void*)&pages[i]->xheap)) return 1;
-  for (int i = 0; i < nkheaps; i++) if (p == (void*)&kheaps[i]->thread_delayed_free) return 1;
+  for (int i = 0; i < nkheaps; i++) if (kheaps[i] != NULL && p == (void*)&kheaps[i]->thread_delayed_free) return 1;
   return 0;
 }
 static int pick_next(int must_leave, int critical) {
@@ -119,7 +127,7 @@ static int pick_next(int must_leave, int critical) {
 static int pg_owner[MAXPG];              // owning virtual thread of a registered page (-1 = slot not in use)
 static uint64_t pg_sig[MAXPG];           // signature of the last printed snapshot
 static mi_page_t* lk_subject = NULL;     // the page the current malloc/free call worked on
-static int heap_printed[64];
+static int heap_printed[MAXHP];
 static size_t blk_idx(mi_page_t* pg, void* b) { return (size_t)((uint8_t*)b - pg->page_start) / pg->block_size; }
 static int page_known(mi_page_t* pg) { for (int i = 0; i < npages; i++) if (pages[i] == pg) return i; return -1; }
 static void lk_tf(mi_page_t* pg, uintptr_t v) {           // "<flag> <idx> <idx> ..."
@@ -140,13 +148,28 @@ static void lk_step(int op, volatile void* p, int ok, uintptr_t oldv) {
   const char* kind = (op == VOP_LOAD) ? "L" : (op == VOP_STORE) ? "W" : (op == VOP_CASW || op == VOP_CASS) ? (ok == 1 ? "C" : "F") : "?";
   int k = atoi(cls + 3);
   if (cls[0] == 't') { printf("S %d %s tf %d ", cur, kind, k); lk_tf(pages[k], oldv); printf(" -> "); lk_tf(pages[k], newv); printf("\n"); }
-  else if (cls[0] == 'x') { printf("S %d %s heap %d ", cur, kind, k); lk_heapval(oldv); printf(" -> "); lk_heapval(newv); printf("\n"); }
+  else if (cls[0] == 'x') {
+    printf("S %d %s heap %d ", cur, kind, k); lk_heapval(oldv); printf(" -> "); lk_heapval(newv); printf("\n");
+    if (op == VOP_STORE && newv == 0) {
+      // _mi_page_free: the page is gone NOW.  Its descriptor (and, when the whole segment goes back to the arena, its address)
+      // can be re-used by any thread before this thread returns from its call: retire the id at once; the re-used descriptor
+      // is registered as a new page at its owner's next snapshot
+      printf("G %d dead\n", k); pages[k] = NULL; pg_owner[k] = -1; pg_sig[k] = 0;
+    }
+  }
   else { printf("S %d %s del %d ", cur, kind, k); lk_del(oldv); printf(" -> "); lk_del(newv); printf("\n"); }
 }
 // declare the heaps of the calling thread that the log has not mentioned yet (before their first use)
 static void lk_declare(void) {
   mi_heap_t* dh = mi_prim_get_default_heap();
-  if (dh == NULL || dh == (mi_heap_t*)&_mi_heap_empty) return;
+  if (dh == NULL || dh == (mi_heap_t*)&_mi_heap_empty) {
+    // the thread's first allocator call would create its backing heap INSIDE the call, and a step of that call can already
+    // name the heap (the xheap store of its first page) before the H line could be printed: create the heap now, outside
+    // the scheduler, so that it is declared before its first use
+    int so = sched_on; sched_on = 0; mi_thread_init(); sched_on = so;
+    dh = mi_prim_get_default_heap();
+    if (dh == NULL || dh == (mi_heap_t*)&_mi_heap_empty) return;
+  }
   for (mi_heap_t* h = dh->tld->heaps; h != NULL; h = h->next) {
     int hid = heap_id(h);
     if (hid >= 0 && !heap_printed[hid]) { heap_printed[hid] = 1; printf("H %d %d %d\n", hid, cur, h == dh->tld->heap_backing ? 1 : 0); }
@@ -165,7 +188,8 @@ static void lk_sync(void) {
     for (mi_heap_t* h = dh->tld->heaps; h != NULL; h = h->next) {
       int hid = heap_id(h);
       for (size_t b = 0; b <= MI_BIN_FULL; b++) for (mi_page_t* pg = h->pages[b].first; pg != NULL; pg = pg->next) {
-        if (pg->block_size < 2048) continue;              // not used by the lock program (e.g. the warm-up block's page)
+        if (pg->block_size < 4000) continue;              // not used by the lock programs (the warm-up block's page; the page of
+                                                          // the backing heap that holds the mi_heap_t structures of mi_heap_new, 3584-byte blocks)
         int k = page_id(pg); if (k < 0) continue;
         pg_owner[k] = cur; seen[k] = 1;
         uintptr_t tf = pg->xthread_free;
@@ -274,8 +298,38 @@ static void barrier(int target) {      // all live threads reach `target`
 }
 static size_t heap_pages(mi_heap_t* h) { return (h == NULL || h == (mi_heap_t*)&_mi_heap_empty) ? 0 : h->page_count; }
 
+#include "prodcons.h"
+
+// ---- mode heap: the first-class heap calls, with their lockstep brackets (mode lockheap) ----
+static mi_heap_t* new_heap(void) {
+  lk_call("malloc", NULL);   // for the TFree model mi_heap_new is a malloc from the backing heap (the structure's page is not shown)
+  mi_heap_t* h = mi_heap_new();
+  if (h == NULL) { lk_ret(); return NULL; }
+  int hid = heap_id_new(h);
+  if (lockfmt && do_log && hid >= 0) {
+    heap_printed[hid] = 1;
+    printf("R %d\n", cur); lk_declare();                      // (declares the backing heap on a thread's first call)
+    printf("A %d newheap %d\nR %d\n", cur, hid, cur);         // ... followed by OpHeapNew
+    lk_sync();
+  }
+  return h;
+}
+static void delete_heap(mi_heap_t* h) {
+  int hid = heap_id(h);
+  if (lockfmt && do_log) { lk_declare(); printf("A %d delete %d\n", cur, hid); }
+  mi_heap_delete(h);                                           // other threads may be freeing into it right now
+  if (hid >= 0) kdead[hid] = 1;
+  lk_ret();
+}
+static void collect_heap(mi_heap_t* h, int force) {
+  if (lockfmt && do_log) { lk_declare(); printf("A %d collect %d %d\n", cur, heap_id(h), force); }
+  mi_heap_collect(h, force != 0);
+  lk_ret();
+}
+
 static void run_program(void) {
-  if (mode == 2 && cur != 0) { extra_heap[cur] = mi_heap_new(); heap_id(extra_heap[cur]); }
+  if (mode == 3) { pc_program(); return; }
+  if (mode == 2 && cur != 0) { extra_heap[cur] = new_heap(); }
   for (int k = 0; k < nops; k++) {
     vts[cur].ops_done++;
     int r = (int)prng_below(&GP, 100);
@@ -288,13 +342,13 @@ static void run_program(void) {
     else if (r < 90) { int f = prng_below(&GP, 2) != 0; if (lockfmt && do_log) { lk_declare(); printf("A %d collect %d %d\n", cur, heap_id(mi_prim_get_default_heap()), f); } mi_collect(f); lk_ret(); }
     else if (r < 93) verif_pre(VOP_YIELD, NULL);
     else if (mode == 1 && cur != 0 && r < 96 && k > nops / 4) { break; }          // terminate early with live blocks
-    else if (mode == 2 && cur != 0 && extra_heap[cur] != NULL && r < 97) {
-      if (prng_below(&GP, 2)) { mi_heap_collect(extra_heap[cur], prng_below(&GP, 2) != 0); }
+    else if (mode == 2 && cur != 0 && extra_heap[cur] != NULL && r < (lockfmt ? 100 : 97)) {   // (lockheap: heap calls more often)
+      if (prng_below(&GP, 2)) { collect_heap(extra_heap[cur], prng_below(&GP, 2) != 0); }
       else {
         mi_heap_t* h = extra_heap[cur]; extra_heap[cur] = NULL;
-        mi_heap_delete(h);                                   // other threads may be freeing into it right now
+        delete_heap(h);
         for (int j = 0; j < NSLOT; j++) if (slots[j].p != NULL) check_block(j, "after heap delete");
-        extra_heap[cur] = mi_heap_new(); if (extra_heap[cur]) heap_id(extra_heap[cur]);
+        extra_heap[cur] = new_heap();
       }
     }
     else if (slots[s].p != NULL) check_block(s, "spot check");
@@ -319,6 +373,23 @@ static void run_program(void) {
     }
     barrier(3);
     if (lockfmt) do_log = 0;          // thread exit (abandonment) is not part of the TFree model
+  }
+  if (mode == 2 && lockfmt) {
+    // everything is freed by whichever thread gets there first, then the extra heaps are deleted and every owner collects
+    barrier(1);
+    for (int j = 0; j < NSLOT; j++) { int q = (j * 7 + cur * 13) % NSLOT; if (slots[q].p != NULL) do_free(q); }
+    barrier(2);
+    if (cur != 0 && extra_heap[cur] != NULL) { mi_heap_t* h = extra_heap[cur]; extra_heap[cur] = NULL; delete_heap(h); }
+    if (do_log) { lk_declare(); printf("A %d collect %d 1\n", cur, heap_id(mi_prim_get_default_heap())); }
+    mi_collect(true);
+    lk_ret();
+    mi_heap_t* h = mi_prim_get_default_heap();
+    if (cur != 0 && heap_pages(h) != 0) {
+      size_t used = 0; for (size_t b = 0; b <= MI_BIN_FULL; b++) for (mi_page_t* pg = h->pages[b].first; pg; pg = pg->next) used += pg->used;
+      if (used != 0) viol("leak", "after all blocks were freed, the extra heap deleted and the owner collected, its heap still holds %zu pages (%zu blocks counted as used)", heap_pages(h), used);
+    }
+    barrier(3);
+    do_log = 0;          // thread exit (abandonment) is not part of the TFree model
   }
   if (mode == 2 && cur != 0 && extra_heap[cur] != NULL) { mi_heap_t* h = extra_heap[cur]; extra_heap[cur] = NULL; mi_heap_delete(h); }
 }
@@ -378,15 +449,16 @@ static void check_abandoned_visit(void) {
 static bool count_visitor(const mi_heap_t* heap, const mi_heap_area_t* area, void* block, size_t bsize, void* arg) { (void)heap; (void)area; (void)bsize; if (block != NULL) (*(size_t*)arg)++; return true; }
 
 int main(int argc, char** argv) {
-  if (argc < 5) { fprintf(stderr, "usage: s_conc <tfree|exit|heap|lock> <seed> <nthreads> <nops> [log]\n"); return 2; }
+  if (argc < 5) { fprintf(stderr, "usage: s_conc <tfree|exit|heap|lock|lockheap|prodcons> <seed> <nthreads> <nops> [log]\n"); return 2; }
   verif_no_aslr(argv);
-  lockfmt = !strcmp(argv[1], "lock");
-  mode = (!strcmp(argv[1], "tfree") || lockfmt) ? 0 : !strcmp(argv[1], "exit") ? 1 : 2;
+  lockfmt = !strcmp(argv[1], "lock") || !strcmp(argv[1], "lockheap");
+  mode = (!strcmp(argv[1], "tfree") || !strcmp(argv[1], "lock")) ? 0 : !strcmp(argv[1], "exit") ? 1 : !strcmp(argv[1], "prodcons") ? 3 : 2;
   for (int i = 0; i < MAXPG; i++) pg_owner[i] = -1;
   uint64_t seed = strtoull(argv[2], NULL, 10); nthreads = atoi(argv[3]); nops = atoi(argv[4]); do_log = argc > 5;
   if (nthreads > MAXT) nthreads = MAXT;
   if (nthreads < 2) nthreads = 2;
   ablog = (mode == 1 && argc > 5 && !strcmp(argv[5], "alog"));
+  if (mode == 3) { pc_seed = seed; pc_init(); }
   prng_seed(&G, seed * 2 + 1); prng_seed(&GP, seed * 2 + 2);
   { static const int sp[] = { 20, 55, 55, 85 }; stay_pct = sp[seed % 4]; }
   setvbuf(stdout, NULL, _IOFBF, 1 << 16);
